@@ -1,8 +1,6 @@
 package props
 
 import (
-	"strings"
-
 	"verif/inspect"
 	"verif/sim"
 )
@@ -17,18 +15,6 @@ func hasNestedTable(root *inspect.Node) bool {
 		}
 	}
 	return false
-}
-
-// foldNested: when the saved document contains a nested table, the reader
-// does not rebuild it but reads its rows and cells into the enclosing table;
-// every difference in table structure below a top-level table is then a
-// symptom of that one listed finding.
-func foldNested(sig string, nested bool) string {
-	const pfx = "word/document.xml:/w:document/w:body/w:tbl/"
-	if nested && strings.HasPrefix(sig, pfx) && (strings.Contains(sig, "/w:tr") || strings.Contains(sig, "/w:tblGrid")) {
-		return "word/document.xml:nested-table-not-read-back"
-	}
-	return sig
 }
 
 func c03Witnesses() []*sim.Case {
